@@ -134,3 +134,64 @@ fn c11_write_total() {
     }
     std::mem::forget(s);
 }
+
+// ---- a REGULAR stream whose length claims more than its chain holds ----
+// slot 1: start sector 4 (a one-sector chain appended to the small layout),
+// length 5000 (ten sectors' worth).  Case 3 of write / resize.
+fn mk_reg_short() -> crate::internal::MiniAllocator<FS> {
+    let mut p = small_parts(&[1, EOC, EOC], 4, 5000, 2, 64);
+    put32(&mut p.data, soff(0) + 16, EOC);
+    p.fat.push(EOC);
+    let fill: [u8; SEC] = kani::any();
+    p.data[soff(4)..soff(4) + SEC].copy_from_slice(&fill);
+    p.len += SEC;
+    let file = ArrFile::new(p.data, p.len);
+    assemble(file, p.len, p.fat, p.entries, p.mf, p.mfree)
+}
+
+macro_rules! incons_reg {
+    ($name:ident, |$m:ident| $op:expr) => {
+        #[kani::proof]
+        #[kani::stub(std::fmt::format, stub_format)]
+        #[kani::stub(std::io::copy, stub_io_copy)]
+        #[kani::unwind(210)]
+        fn $name() {
+            let mut mm = mk_reg_short();
+            let _ok = {
+                let $m = &mut mm;
+                $op
+            };
+            kani::cover!(true, "end");
+            std::mem::forget(mm);
+        }
+    };
+}
+incons_reg!(c11_incons_regshort_resize4500, |m| okf(sacc::resize(m, 1, 4500)));
+incons_reg!(c11_incons_regshort_resize5100, |m| okf(sacc::resize(m, 1, 5100)));
+incons_reg!(c11_incons_regshort_resize100, |m| okf(sacc::resize(m, 1, 100)));
+incons_reg!(c11_incons_regshort_write_in, |m| { let b: [u8; 10] = kani::any(); okf(sacc::write_data(m, 1, 100, &b)) });
+incons_reg!(c11_incons_regshort_write_beyond, |m| { let b: [u8; 10] = kani::any(); okf(sacc::write_data(m, 1, 3000, &b)) });
+incons_reg!(c11_incons_regshort_read, |m| { let mut b = [0u8; 10]; okf(sacc::read_data(m, 1, 600, &mut b)) });
+
+// ---- a mini stream (root entry chain) that runs in a circle ----
+// The FAT validator accepts a sector that links to itself (every sector is
+// pointed to once).  Growing the mini stream must notice the cycle instead of
+// walking it forever: termination is the unwinding assertion of this harness.
+#[kani::proof]
+#[kani::stub(std::fmt::format, stub_format)]
+#[kani::stub(std::io::copy, stub_io_copy)]
+#[kani::unwind(210)]
+fn c11_root_cycle_append() {
+    use crate::internal::alloc::vacc as aacc;
+    use crate::internal::directory::vacc as dacc;
+    use crate::internal::minialloc::vacc as macc;
+    // MiniFAT full for the one mini stream sector (8 one-sector chains), no free mini sector
+    let (mut m, _pre) = super::h_mini::mk_mini(&[EOC, EOC, EOC, EOC, EOC, EOC, EOC, EOC], false, false);
+    // damage: the mini stream's sector 3 links to itself
+    let r = aacc::set_fat(dacc::allocator_mut(macc::directory_mut(&mut m)), 3, 3);
+    assert!(okf(r), "harness: set_fat");
+    let r = okf(macc::allocate_mini_sector(&mut m, EOC));
+    assert!(!r, "C11: growing a mini stream whose sector chain is a cycle reported success");
+    kani::cover!(true, "end");
+    std::mem::forget(m);
+}
